@@ -187,13 +187,31 @@ def braces_in_range(lines, l0, l1):
     return cnt
 
 
-def compound_in_range(lines, l0, l1):
+ARITH = re.compile(r"^(const )?(unsigned |signed )?(int|long|short|char|double|float|bool|unsigned|(std::)?size_t|(std::)?u?int(8|16|32|64)_t|long long|unsigned long|long unsigned int|Scalar|ValueType)( const)?$")
+
+
+def arith_names(f):
+    """locals / parameters of built-in arithmetic type: only for those is  x OP= e  the same as  x = x OP e"""
+    out = set()
+    for p_ in f.get("params") or []:
+        if p_.get("n") and ARITH.match((p_.get("t") or "").replace("&", "").strip()) and "const" not in (p_.get("t") or ""):
+            out.add(p_["n"])
+    if f.get("body"):
+        for n in walk(f["body"]):
+            if n["k"] == "Decl":
+                for v in n["vars"]:
+                    if v.get("n") and ARITH.match((v.get("t") or "").strip()):
+                        out.add(v["n"])
+    return out
+
+
+def compound_in_range(lines, l0, l1, names=None):
     """x += e;  ->  x = x + (e);   (and -=, *=) for a plain identifier on the left of a one-line statement"""
     cnt = 0
     for i in range(l0 - 1, min(l1, len(lines))):
         s = lines[i]
         m = re.match(r"^(\s*)([A-Za-z_]\w*) (\+|-|\*)= ([^;{}\"]+);(\s*)$", s)
-        if m and "//" not in s and m.group(2) not in KEYWORDS:
+        if m and "//" not in s and m.group(2) not in KEYWORDS and (names is None or m.group(2) in names):
             lines[i] = "%s%s = %s %s (%s);%s" % (m.group(1), m.group(2), m.group(2), m.group(3), m.group(4), m.group(5))
             cnt += 1
     return cnt
@@ -229,7 +247,7 @@ def apply(root, fns, mode):
                     lines[bl] = lines[bl].rstrip() + " [[maybe_unused]] const int verif_pad_nv = 0;"
                     total += 1
             if mode == "compound":
-                total += compound_in_range(lines, f["l"], f["l_end"])
+                total += compound_in_range(lines, f["l"], f["l_end"], arith_names(f))
             if mode == "flip":
                 total += flip_in_range(lines, f["l"], f["l_end"])
             if mode == "braces":
